@@ -131,7 +131,7 @@ class RejectMachine(Machine):
         enumerate_ = (idx // len(HOSTS)) % 2 == 0
         nbase = sw.randint(3, 8) if enumerate_ else sw.randint(8, 16 if tier == "quick" else 30)
         if host == "fit":
-            ops = self._gen_fit(rng, sw, nbase)
+            ops = self._gen_fit(rng, sw, nbase, allow_fit=not enumerate_)
         elif host == "cont":
             ops = self._gen_cont(rng, sw, nbase)
         elif host == "hist":
@@ -149,7 +149,7 @@ class RejectMachine(Machine):
                     ops.insert(pos, ["fault", kf[0], kf[1]])
         return {"machine": self.name, "seed": seed, "knobs": knobs, "ops": ops}
 
-    def _gen_fit(self, rng, sw, n):
+    def _gen_fit(self, rng, sw, n, allow_fit=True):
         t = rng.choice(["xy", "indexed", "hist", "unbinned", "xy", "indexed"])
         spec = fitlib.gen_new(rng, t, nmax=6)
         ops = [["new", spec, []]]
@@ -186,7 +186,7 @@ class RejectMachine(Machine):
                 ops.append(["read", rng.choice(FIT_READS)])
         ops.append(["read", "cost_function_value"])
         ops.append(["read", "result_dict"])
-        if sw.random() < 0.25:
+        if allow_fit and sw.random() < 0.4:
             ops.append(["do_fit"])
             ops.append(["read", "parameter_values"])
         return ops
